@@ -252,6 +252,13 @@ func checkC20(c *Ctx) {
 						if o.Panic {
 							c.Fail(Finding{Sig: "save-panics", Input: key, What: o.Msg, Replay: obj{"kind": "c20", "key": key, "pick": pick, "dirs": dirs, "edited": edited, "fail": fail}})
 						}
+						for i := range o.Written {
+							if o.FailFile != 0 && i+1 < o.FailFile && !o.Written[i] {
+								// Save.tla writes file by file; the property does not ask for it (I-layer)
+								c.Set("model_conformance", false)
+								c.Set("files_before_a_failure_not_written", true)
+							}
+						}
 						tr.Add(o)
 						keys = append(keys, key)
 						replays = append(replays, obj{"kind": "c20", "key": key, "pick": pick, "dirs": dirs, "edited": edited, "fail": fail})
